@@ -1353,6 +1353,9 @@ func (in *Interp) addLoop(lr *LoopRec) {
 // outside the language (noted); for the bounds and progress rules the body is
 // interpreted once from a havocked state.
 func (in *Interp) execFor(st *State, x *ast.ForStmt, label string) (*State, bool) {
+	if rs := in.countedRange(x); rs != nil {
+		return in.execRange(st, rs)
+	}
 	if x.Init != nil {
 		st, _ = in.exec(st, x.Init)
 	}
@@ -1649,10 +1652,29 @@ func (in *Interp) execFor(st *State, x *ast.ForStmt, label string) (*State, bool
 					scan(be.Y)
 					return
 				}
-				if (be.Op == token.LSS || be.Op == token.LEQ) && identObjOf(in, be.X) == o {
+				// o < X, o <= X, o + c < X, X > o, X >= o + c … with c a non-negative constant
+				small, big := be.X, be.Y
+				switch be.Op {
+				case token.LSS, token.LEQ:
+				case token.GTR, token.GEQ:
+					small, big = be.Y, be.X
+				default:
+					return
+				}
+				isCursor := identObjOf(in, small) == o
+				if !isCursor {
+					if ad, ok := unparen(small).(*ast.BinaryExpr); ok && ad.Op == token.ADD {
+						if c, isC := constIntOf(in.info, ad.Y); isC && c >= 0 && identObjOf(in, ad.X) == o {
+							isCursor = true
+						} else if c, isC := constIntOf(in.info, ad.X); isC && c >= 0 && identObjOf(in, ad.Y) == o {
+							isCursor = true
+						}
+					}
+				}
+				if isCursor {
 					save := in.noSites
 					in.noSites = true
-					X := in.evalInt(body, be.Y)
+					X := in.evalInt(body, big)
 					in.noSites = save
 					if !X.HasAtom(func(a *Atom) bool { return a.Kind == "opq" && strings.HasPrefix(a.Path, "loop") }) {
 						cp.Bound = "loop condition " + in.render(nil, be)
@@ -2069,4 +2091,75 @@ func declaredSizeCanWrap(t *Term) bool {
 	}
 	m := maxOf(t)
 	return has && m > 65535
+}
+
+// countedRange recognises `for i := 0; i < len(S); i++ { … S[i] … }` with i and S not assigned in the body
+// and returns the equivalent `for i := range S` (same body; S[i] evaluates to the element either way).
+func (in *Interp) countedRange(x *ast.ForStmt) *ast.RangeStmt {
+	as, ok := x.Init.(*ast.AssignStmt)
+	if !ok || as.Tok != token.DEFINE || len(as.Lhs) != 1 || len(as.Rhs) != 1 {
+		return nil
+	}
+	iv, ok := as.Lhs[0].(*ast.Ident)
+	if !ok {
+		return nil
+	}
+	if c, isC := constIntOf(in.info, as.Rhs[0]); !isC || c != 0 {
+		return nil
+	}
+	io := in.info.Defs[iv]
+	be, ok := unparen(x.Cond).(*ast.BinaryExpr)
+	if !ok || be.Op != token.LSS || identObj(in.info, be.X) != io || io == nil {
+		return nil
+	}
+	lc, ok := unparen(be.Y).(*ast.CallExpr)
+	if !ok || len(lc.Args) != 1 {
+		return nil
+	}
+	if id, ok := unparen(lc.Fun).(*ast.Ident); !ok || id.Name != "len" {
+		return nil
+	}
+	S := unparen(lc.Args[0])
+	switch S.(type) {
+	case *ast.Ident, *ast.SelectorExpr:
+	default:
+		return nil
+	}
+	if _, isSlice := in.info.TypeOf(S).Underlying().(*types.Slice); !isSlice {
+		return nil
+	}
+	switch p := x.Post.(type) {
+	case *ast.IncDecStmt:
+		if p.Tok != token.INC || identObj(in.info, p.X) != io {
+			return nil
+		}
+	default:
+		return nil
+	}
+	sText := types.ExprString(S)
+	bad := false
+	ast.Inspect(x.Body, func(n ast.Node) bool {
+		switch y := n.(type) {
+		case *ast.AssignStmt:
+			for _, l := range y.Lhs {
+				if identObj(in.info, l) == io || types.ExprString(unparen(l)) == sText {
+					bad = true
+				}
+			}
+		case *ast.IncDecStmt:
+			if identObj(in.info, y.X) == io {
+				bad = true
+			}
+		case *ast.BranchStmt:
+			// break/continue keep range semantics; goto does not
+			if y.Tok == token.GOTO {
+				bad = true
+			}
+		}
+		return true
+	})
+	if bad {
+		return nil
+	}
+	return &ast.RangeStmt{For: x.For, Key: iv, Tok: token.DEFINE, X: S, Body: x.Body}
 }
